@@ -145,7 +145,8 @@ pub fn run(ctx: &Ctx, rep: &mut Report) {
                     want = if amount < 0 {
                         Want::Fail("negative-amount")
                     } else if !is_minter {
-                        if op == "mint" { Want::Either("owner-is-not-a-minter") } else { Want::Fail("not-a-minter") }
+                        // "only current minters can mint": also through the administrator's entry point
+                        Want::Fail("not-a-minter")
                     } else if overflow {
                         Want::Fail("balance-overflow")
                     } else {
